@@ -7,9 +7,13 @@ function implements, the row number (from the `// State #n` comment AND from the
 variant returned, which must agree with the enum's discriminant), the action returned and the
 ordered list of effects on the subscription (`reset_lifetime_counter`, `start_publishing_timer`,
 `reset_keep_alive_counter`, `keep_alive_counter -= 1`, `state = …`, `first_message_sent = …`).
-`Proofs/C22.lean` proves (`rows_sound`) that interpreting the regenerated effect lists gives exactly
-what the hand-written model does in each row, so an edit of a row's actions in the Rust source
-breaks the proof obligation.  (Row CONDITIONS are tied by the differential run only.)
+For every row it also emits the states of the enclosing `match self.state` arm and the GUARD of
+the row, parsed into a Boolean expression over named atoms (comparisons keep their operator and
+constant), in source order.  `Proofs/C22.lean` proves (`rows_exact`) that interpreting the
+regenerated table — first row, in source order, whose arm contains the state and whose guard holds;
+its effects in order — IS the hand-written model of `update_state`, for every state and input.  So
+an edit of a guard (e.g. `> 1` to `>= 1`), of an action, or of the order of the rows in the Rust
+source breaks the proof obligation.
 Exit status != 0: the function no longer has the shape this translator understands."""
 import os, re, sys
 
@@ -30,6 +34,104 @@ def fail(msg):
     sys.exit(1)
 
 
+
+ATOMS = {
+    "self.publishing_enabled": ".enabled", "self.first_message_sent": ".sent",
+    "p.more_notifications": ".more", "p.notifications_available": ".na",
+    "p.publishing_req_queued": ".req", "p.publishing_timer_expired": ".expired",
+}
+CMPS = {"==": ".eq", "!=": ".ne", ">": ".gt", ">=": ".ge", "<": ".lt", "<=": ".le"}
+
+
+def parse_guard(text, num):
+    toks = re.findall(r"&&|\|\||==|!=|>=|<=|[!()<>]|[A-Za-z_][\w:.]*|\d+", text)
+    if "".join(toks) != re.sub(r"\s+", "", text):
+        fail(f"row #{num}: guard has characters the translator does not know: {text!r}")
+    pos = [0]
+
+    def peek():
+        return toks[pos[0]] if pos[0] < len(toks) else None
+
+    def take():
+        pos[0] += 1
+        return toks[pos[0] - 1]
+
+    def p_or():
+        a = p_and()
+        while peek() == "||":
+            take()
+            a = f"(.or {a} {p_and()})"
+        return a
+
+    def p_and():
+        a = p_un()
+        while peek() == "&&":
+            take()
+            a = f"(.and {a} {p_un()})"
+        return a
+
+    def p_un():
+        t = peek()
+        if t == "!":
+            take()
+            return f"(.not {p_un()})"
+        if t == "(":
+            take()
+            a = p_or()
+            if take() != ")":
+                fail(f"row #{num}: unbalanced parentheses in guard")
+            return a
+        t = take()
+        if t == "tick_reason":
+            if take() != "==":
+                fail(f"row #{num}: tick_reason compared with something else than ==")
+            v = take()
+            if v == "TickReason::ReceivePublishRequest":
+                return ".recv"
+            if v == "TickReason::TickTimerFired":
+                return "(.not .recv)"
+            fail(f"row #{num}: unknown tick reason {v}")
+        if t in ("self.keep_alive_counter", "self.lifetime_counter"):
+            op, n = take(), take()
+            if op not in CMPS or not n.isdigit():
+                fail(f"row #{num}: comparison not understood: {t} {op} {n}")
+            return "(.%s %s %s)" % ("ka" if t == "self.keep_alive_counter" else "life", CMPS[op], n)
+        if t in ATOMS:
+            return ATOMS[t]
+        fail(f"row #{num}: unknown atom {t!r} in guard")
+
+    a = p_or()
+    if pos[0] != len(toks):
+        fail(f"row #{num}: trailing tokens in guard {text!r}")
+    return a
+
+
+def guard_and_states(body, at, num):
+    """the guard of the `if`/`else if` whose block contains position `at`, and the states of the
+    enclosing `match self.state` arm"""
+    # the opening brace of the block: last `{` before the comment, with nothing but whitespace between
+    j = body.rfind("{", 0, at)
+    if j < 0 or re.sub(r"//[^\n]*", "", body[j + 1:at]).strip():
+        fail(f"row #{num}: the `// State` comment is not the first thing in its block")
+    head = body[:j]
+    # statement-level text before the brace: back to the previous `{`, `}` or `;`
+    k = max(head.rfind("{"), head.rfind("}"), head.rfind(";"))
+    stmt = head[k + 1:].strip()
+    m = re.match(r"^(?:else\s+)?if\s+(.*)$", stmt, re.S)
+    if m:
+        guard = parse_guard(m.group(1), num)
+    elif re.match(r"^SubscriptionState::\w+\s*=>$", stmt):
+        guard = ".tt"                                  # the match arm itself (row #3)
+    else:
+        fail(f"row #{num}: cannot find the guard in {stmt!r}")
+    # enclosing match arm: the last `SubscriptionState::A | SubscriptionState::B => {` before `at`
+    arms = list(re.finditer(r"((?:SubscriptionState::\w+\s*\|?\s*)+)=>\s*\{", body[:at]))
+    if not arms:
+        fail(f"row #{num}: no enclosing match arm")
+    sts = re.findall(r"SubscriptionState::(\w+)", arms[-1].group(1))
+    return guard, [".%s" % (x[0].lower() + x[1:]) for x in sts]
+
+
 def main():
     repo, root = sys.argv[1], sys.argv[2]
     src = open(f"{repo}/lib/src/server/subscriptions/subscription.rs").read()
@@ -43,10 +145,14 @@ def main():
         fail("fn update_state not found")
     body = m.group(0)
     body = re.sub(r"trace!\(.*?\);", "", body, flags=re.S)       # the debug trace mentions self.* fields
+    if not re.search(r"if tick_reason == TickReason::ReceivePublishRequest && p\.publishing_timer_expired \{\s*panic!", body):
+        fail("the initial `ReceivePublishRequest && publishing_timer_expired` panic is gone")
     parts = re.split(r"// State #(\d+)", body)
+    offsets = [m.start() for m in re.finditer(r"// State #\d+", body)]
     rows = []
     for k in range(1, len(parts), 2):
         num, seg = int(parts[k]), parts[k + 1]
+        at = offsets[(k - 1) // 2]
         r = re.search(r"return UpdateStateResult::new\(\s*HandledState::(\w+),\s*UpdateStateAction::(\w+),?\s*\)", seg)
         if not r or (k + 2 < len(parts) and r.start() > len(seg)):
             continue                                                # `// State #2` is a remark without code
@@ -72,18 +178,19 @@ def main():
             fail(f"row #{num}: returns HandledState::{hname} = {handled[hname]} (numbering disagrees with the comment)")
         if aname not in ACTIONS:
             fail(f"row #{num}: unknown action {aname}")
-        rows.append((num, ACTIONS[aname], effs))
-    nums = sorted(n for n, _, _ in rows)
+        guard, sts = guard_and_states(body, at, num)
+        rows.append((at, num, ACTIONS[aname], effs, guard, sts))
+    nums = sorted(r[1] for r in rows)
     expect = [3, 4, 5, 6, 7, 8, 9, 10, 11, 12, 13, 14, 15, 16, 17, 27]
     if nums != expect:
         fail(f"rows found {nums}, expected {expect}")
-    rows.sort()
+    rows.sort()                                                 # source order
     lines = ["-- GENERATED by tools/translate/c22_rows.py from lib/src/server/subscriptions/subscription.rs — do not edit",
              "import OpcuaVerif.Model.C22", "namespace OpcuaVerif.C22",
-             "/-- the rows of `Subscription::update_state`: number, action, effects in source order -/",
+             "/-- the rows of `Subscription::update_state` in source order: number, states of the match arm, guard, action, effects -/",
              "def generatedRows : List Row := ["]
-    lines += ["  { num := %d, action := %s, effs := [%s] }%s" % (n, a, ", ".join(e), "," if i + 1 < len(rows) else "")
-              for i, (n, a, e) in enumerate(rows)]
+    lines += ["  { num := %d, states := [%s], guard := %s,\n    action := %s, effs := [%s] }%s" % (n, ", ".join(st), g, a, ", ".join(e), "," if i + 1 < len(rows) else "")
+              for i, (_, n, a, e, g, st) in enumerate(rows)]
     lines += ["]", "end OpcuaVerif.C22", ""]
     text = "\n".join(lines)
     path = f"{root}/lean/OpcuaVerif/Generated/C22Rows.lean"
@@ -94,7 +201,7 @@ def main():
         old = None
     if old != text:
         open(path, "w").write(text)
-    print(f"{len(rows)} rows of update_state, {sum(len(e) for _, _, e in rows)} effects; HandledState numbering agrees")
+    print(f"{len(rows)} rows of update_state with guards, {sum(len(r[3]) for r in rows)} effects; HandledState numbering agrees")
 
 
 if __name__ == "__main__":
